@@ -193,33 +193,34 @@ func (q *remoteQuery) Exec(ctx context.Context) *promql.Result {
 
 // Outcome is everything observed about one query.
 type Outcome struct {
-	Created      bool              `json:"created"`
-	CreateErr    string            `json:"create_err,omitempty"`
-	CreateErrVal error             `json:"-"`
-	Unsupported  bool              `json:"unsupported,omitempty"`
-	ClientPanic  string            `json:"client_panic,omitempty"`
-	Fallback     bool              `json:"fallback,omitempty"`
-	DNative      float64           `json:"d_native"`
-	DFallback    float64           `json:"d_fallback"`
-	Res          *Result           `json:"res,omitempty"`
-	Err          string            `json:"err,omitempty"`
-	Canceled     bool              `json:"canceled,omitempty"`
-	Deadline     bool              `json:"deadline,omitempty"`
-	Injected     []string          `json:"injected,omitempty"`
-	WF           []string          `json:"wf,omitempty"`
-	Contract     map[string]string `json:"contract,omitempty"`
-	ExecStart    int               `json:"exec_start"`
-	ExecEnd      int               `json:"exec_end"`
-	CancelStep   int               `json:"cancel_step,omitempty"`
-	FirstCBStep  int               `json:"first_cb_step,omitempty"`
-	Acct         *store.Acct       `json:"-"`
-	PartAccts    []*store.Acct     `json:"-"`
-	Raw          parser.Value      `json:"-"`
-	ErrVal       error             `json:"-"`
-	ExprType     parser.ValueType  `json:"-"`
-	Q            promql.Query      `json:"-"`
-	AliveAtClose []string          `json:"alive_at_close,omitempty"`
-	CtxDoneAtEnd bool              `json:"ctx_done_at_end,omitempty"`
+	Created        bool              `json:"created"`
+	CreateErr      string            `json:"create_err,omitempty"`
+	CreateErrVal   error             `json:"-"`
+	Unsupported    bool              `json:"unsupported,omitempty"`
+	ClientPanic    string            `json:"client_panic,omitempty"`
+	Fallback       bool              `json:"fallback,omitempty"`
+	DNative        float64           `json:"d_native"`
+	DFallback      float64           `json:"d_fallback"`
+	Res            *Result           `json:"res,omitempty"`
+	Err            string            `json:"err,omitempty"`
+	Canceled       bool              `json:"canceled,omitempty"`
+	Deadline       bool              `json:"deadline,omitempty"`
+	Injected       []string          `json:"injected,omitempty"`
+	WF             []string          `json:"wf,omitempty"`
+	Contract       map[string]string `json:"contract,omitempty"`
+	ExecStart      int               `json:"exec_start"`
+	ExecEnd        int               `json:"exec_end"`
+	CancelStep     int               `json:"cancel_step,omitempty"`
+	FirstCBStep    int               `json:"first_cb_step,omitempty"`
+	Acct           *store.Acct       `json:"-"`
+	PartAccts      []*store.Acct     `json:"-"`
+	Raw            parser.Value      `json:"-"`
+	ErrVal         error             `json:"-"`
+	ExprType       parser.ValueType  `json:"-"`
+	Q              promql.Query      `json:"-"`
+	AliveAtClose   []string          `json:"alive_at_close,omitempty"`
+	CtxDoneAtEnd   bool              `json:"ctx_done_at_end,omitempty"`
+	ParkedAtCancel map[string]int    `json:"-"`
 }
 
 func (o *Outcome) Failed() bool { return !o.Created || o.Err != "" || o.ClientPanic != "" }
@@ -359,6 +360,9 @@ func RunQuery(r QueryRun) (o *Outcome) {
 	cancelFn := func() {
 		if o.CancelStep == 0 {
 			o.CancelStep = step()
+			if r.Sim != nil {
+				o.ParkedAtCancel = r.Sim.ParkedSites()
+			}
 		}
 		cancel()
 	}
@@ -386,6 +390,7 @@ func RunQuery(r QueryRun) (o *Outcome) {
 			}
 			if o.CancelStep == 0 {
 				o.CancelStep = step()
+				o.ParkedAtCancel = r.Sim.ParkedSites()
 			}
 			sched.Note("client-cancel")
 			if op.ClientClose {
